@@ -15,9 +15,6 @@ clients use: `(` `)`, `[` `]`, `{` `}`).
 namespace Bpp.C17
 open Bpp.Text Bpp.Text.U Bpp.Text.RT
 
-theorem strOk_of_int {s : Str} (hs : s.length < 2147483648) : StrOk s := by
-  unfold StrOk maxStr; omega
-
 /-- **tokens concatenated with the recorded delimiters give back the input**, and
 `unparseRemainingTokens()` returns it (without leading / trailing delimiters in non-solid mode): for
 every (open, close, delimiter, solid) combination, whenever the constructor returns (it raises the
